@@ -39,4 +39,24 @@ CHECKS = {
         assumptions=["exhaustive only for the 1Sec offsets in the thorough tier; other timeframes are sampled densely"],
         technique="exhaustive/stratified enumeration of the round trip against an arithmetic oracle",
     ),
+    "C11": dict(
+        test="TestC11", level="exploration", shards=16,
+        tiers=dict(quick=dict(checks=40, timeout=600), thorough=dict(checks=2500, timeout=3000)),
+        rule="rapid stored histories (fixed and variable, all timeframes, 1-3 years) x 4-12 (start,end) pairs at ns "
+             "precision drawn from stored times +-{0,1ns,1 tick}, interval and year edges, far before/after, 10% possibly "
+             "inverted; oracle = filter of the server's own all-time result by the property's definition of in-range; "
+             "non-trivial = partial result with a bound strictly inside a populated interval, distinct by (history, range)",
+        assumptions=["time zone UTC", "the unrestricted query itself is checked by C08/C09"],
+        technique="metamorphic property-based testing (ranged query vs filter of unrestricted query)",
+    ),
+    "C12": dict(
+        test="TestC12", level="exploration", shards=16,
+        tiers=dict(quick=dict(checks=40, timeout=600), thorough=dict(checks=2500, timeout=3000)),
+        rule="rapid stored histories (fixed and variable, gaps, 1-3 year files) x 3-8 (range, N, direction, entry point) "
+             "tuples with N in {1,2,3,count-1,count,count+1,10*count+1,count/2}; oracle = first/last N rows of the same "
+             "query without a limit; non-trivial = N < rows in range and the range spans >=2 year files or has a gap, "
+             "distinct by (history, range, N, direction)",
+        assumptions=["time zone UTC", "the unlimited ranged query itself is checked by C11"],
+        technique="metamorphic property-based testing (limited query vs prefix/suffix of unlimited query)",
+    ),
 }
